@@ -1290,6 +1290,71 @@ fn family_review(g: &mut G, rng: &mut Rng, thorough: bool) {
         }
     }
 
+    // ---- C04 (review batch 2, #2/#6): ONE hostile datagram per case against the block decoders: source
+    //      blocks beyond what the code supports (RaptorQ K > 56403, Raptor K > 8192, No-Code K > 65536),
+    //      boundary values, RaptorQ symbols of the wrong length, the largest No-Code announcement that
+    //      is still accepted.  Opaque to the model (`fz`); oracles: no panic, no hang, allocation classes
+    {
+        // (name, fec id, max source block length, E, parity, scheme specific, transfer length, payload lengths)
+        type Case = (&'static str, u8, u32, u16, u32, Option<(u8, u32, u32, u32)>, u64, Vec<usize>);
+        let cases: Vec<Case> = vec![
+            ("raptorq-k56404", 6, 56404, 4, 0, Some((1, 1, 1, 4)), 56404 * 4, vec![4]),
+            ("raptorq-k56403", 6, 56403, 4, 0, Some((1, 1, 1, 4)), 56403 * 4, vec![4]),
+            ("raptorq-k-2^20", 6, 1 << 20, 8, 0, Some((1, 1, 1, 4)), (1 << 20) * 8, vec![8]),
+            ("raptorq-symbol-lengths", 6, 10, 16, 0, Some((1, 1, 1, 4)), 160, vec![16, 0, 8, 17, 15, 32, 16, 1]),
+            ("raptor-k8193", 1, 8193, 4, 0, Some((2, 1, 1, 4)), 8193 * 4, vec![4]),
+            ("raptor-k8192", 1, 8192, 4, 0, Some((2, 1, 1, 4)), 8192 * 4, vec![4]),
+            ("raptor-absurd-length", 1, 8192, 100, 0, Some((2, 1, 1, 4)), 0x1000_0000_011d, vec![100]),
+            ("raptor-symbol-lengths", 1, 10, 16, 0, Some((2, 1, 1, 4)), 160, vec![16, 0, 8, 17, 15, 32]),
+            ("nocode-k-2^28", 0, u32::MAX, 1, 0, None, 1 << 28, vec![1]),
+            ("nocode-length-2^40", 0, u32::MAX, 1, 0, None, 1 << 40, vec![1]),
+            ("nocode-k65537", 0, 65537, 1, 0, None, 65537, vec![1]),
+            ("nocode-k65536", 0, 65536, 1, 0, None, 65536, vec![1]),
+            ("nocode-largest-block", 0, 65535, 65535, 0, None, 65535 * 65535, vec![1400]),
+            ("nocode-symbol-lengths", 0, 10, 16, 0, None, 160, vec![16, 0, 8, 17, 15, 32]),
+            ("rs28-k255-p255", 5, 255, 16, 255, None, 255 * 16, vec![16]),
+            ("rs28-symbol-lengths", 5, 10, 16, 4, None, 160, vec![16, 0, 8, 17, 15, 32]),
+            ("rs28us-k65535", 129, 65535, 16, 65535, None, 65535 * 16, vec![16]),
+        ];
+        for (name, fec, b, e, par, ss, tlen, pls) in cases {
+            let oti = match hk::make_oti(fec, 0, b, e, par, ss, true) {
+                Some(o) => o,
+                None => continue,
+            };
+            for toi in [0u128, 700] {
+                g.cfg2(&format!("codec-hostile-{}-toi{}", name, toi), 2, false, true, 1 << 16, true, true, 0, false, 0);
+                g.ctx.nontrivial(&format!("codec-hostile {} {}", name, toi));
+                g.ctx.count("malformed:codec-hostile");
+                let mut ds: Vec<String> = Vec::new();
+                for (i, pl) in pls.iter().enumerate() {
+                    let p = hk::PktFields {
+                        payload: rng.bytes(*pl),
+                        transfer_length: tlen,
+                        esi: i as u32,
+                        sbn: 0,
+                        toi,
+                        fdt_id: if toi == 0 { Some(5) } else { None },
+                        cenc: Cenc::Null,
+                        inband_cenc: false,
+                        close_object: false,
+                        source_block_length: b.min(10),
+                        sender_current_time: false,
+                    };
+                    match guarded(|| hk::new_alc_pkt(&oti, &0u128, TSI, &p, false, st(T0))) {
+                        Ok(d) => ds.push(hex(&d)),
+                        Err(_) => g.ctx.count("codec-hostile:builder-refuses"),
+                    }
+                }
+                // in a child process: what these datagrams provoked before the repairs (abort on a failed
+                // allocation, 6.4 GB held) is nothing the engine survives
+                if !ds.is_empty() {
+                    g.ctx.step(g.eng, &format!("recv iso {} {}", T0, ds.join(",")));
+                }
+                g.ctx.end_case(g.eng);
+            }
+        }
+    }
+
     // ---- C17 (seeded C17-4): idle sessions with a pending object at the MultiReceiver (oracle only)
     {
         g.cfg2("idle-sessions", 0, true, false, 1 << 16, true, true, 0, false, 0);
